@@ -267,3 +267,4 @@ Section Exact.
       exists (b1 && b2), A2'. split; [reflexivity|split; [eapply PostR_trans; eassumption|]]. rewrite Hb1, Hb2, HRu. reflexivity.
   Qed.
 End Exact.
+
